@@ -41,7 +41,8 @@ def quirksOf (qs : List String) : ValQuirks :=
     mapEqOrdered := qs.contains "mapEqOrdered"
     mapEqOneSided := qs.contains "mapEqOneSided"
     argListNeverEqual := qs.contains "argListNeverEqual"
-    ordCalcFlag := qs.contains "ordCalcFlag" }
+    ordCalcFlag := qs.contains "ordCalcFlag"
+    ordNonNumberKept := qs.contains "ordNonNumberKept" }
 
 def handleC12 (quirks : List String) (op : String) (args : List String) : String :=
   let q := quirksOf quirks
